@@ -246,6 +246,16 @@ def r20_6(ctx: Ctx) -> None:
     wd = ctx.prog.func("py7zr", "Worker.decompress")
     fields = {norm(x) for v in q.assigned_values(wd, "max_block_size") for x in ast.walk(v) if isinstance(x, ast.Attribute) and norm(x).startswith("self.")}
     shares = [n for n in walk(f.node) if isinstance(n, ast.Assign) and norm(n.targets[0]) in fields and any(isinstance(x, ast.BinOp) and isinstance(x.op, (ast.FloorDiv, ast.Div, ast.RShift)) for x in ast.walk(n.value))]
+    # ... a quotient BY the number of concurrent folders: the divisor of the outermost division mentions the batch width (`limit // (2 * width)`; in
+    # `limit // 2 * width` the width multiplies)
+    for sh in shares:
+        v = sh.value
+        divs = [x for x in ast.walk(v) if isinstance(x, ast.BinOp) and isinstance(x.op, (ast.FloorDiv, ast.Div, ast.RShift))]
+        by_width = any(any(isinstance(y, ast.Name) and any(isinstance(z, ast.Call) and dotted(z.func) in ("min", "len") for z in ast.walk(q.expand_locals(f, y))) for y in ast.walk(d.right)) for d in divs)
+        grows = any(isinstance(x, ast.BinOp) and isinstance(x.op, ast.Mult) and any(isinstance(y, ast.BinOp) and isinstance(y.op, (ast.FloorDiv, ast.Div)) for y in (x.left, x.right)) for x in ast.walk(v))
+        ctx.check(by_width and not grows, "R20.6", f, sh, "the step budget is divided by the number of concurrent folders",
+                  f"`{norm(sh)[:90]}`: the share of a folder is not the budget divided by the batch width (a precedence slip such as `limit // 2 * width` multiplies by it): four folders "
+                  "decoded at once take 256 MB per step each instead of 16 MB", construct="step budget not divided by the width")
     ctx.check(bool(shares), "R20.6", f, starts[0], "concurrent folders share one step budget (block size field set to a quotient)",
               "while several folders are decoded at the same time each of them still takes the full get_memory_limit() per step: nothing divides the budget among the concurrent "
               "workers (Worker.decompress reads no field that Worker.extract sets to a share)", construct="concurrent folders: undivided chunk budget")
